@@ -249,6 +249,49 @@ PPL::PIP_Problem::solve() const {
         }
       }
 
+      // If space dimensions have been added, the artificial parameters
+      // of the current solution tree get higher indices: renumber them
+      // in the node constraints and in the artificial parameters too.
+      if (external_space_dim > internal_space_dim) {
+        const dimension_type num_added_dims
+          = external_space_dim - internal_space_dim;
+        const Variable first_art(internal_space_dim);
+        std::vector<PIP_Tree_Node*> nodes(1, x.current_solution);
+        while (!nodes.empty()) {
+          PIP_Tree_Node* const node = nodes.back();
+          nodes.pop_back();
+          Constraint_System new_cs;
+          for (Constraint_System::const_iterator
+                 ci = node->constraints_.begin(),
+                 ci_end = node->constraints_.end(); ci != ci_end; ++ci) {
+            Constraint c(*ci);
+            if (c.space_dimension() > internal_space_dim) {
+              c.shift_space_dimensions(first_art, num_added_dims);
+            }
+            new_cs.insert(c);
+          }
+          swap(node->constraints_, new_cs);
+          typedef PIP_Tree_Node::Artificial_Parameter_Sequence AP_Seq;
+          for (AP_Seq::iterator ap = node->artificial_parameters.begin(),
+                 ap_end = node->artificial_parameters.end();
+               ap != ap_end; ++ap) {
+            if (ap->space_dimension() > internal_space_dim) {
+              ap->shift_space_dimensions(first_art, num_added_dims);
+            }
+          }
+          if (const PIP_Decision_Node* const dec = node->as_decision()) {
+            if (dec->child_node(true) != nullptr) {
+              nodes.push_back(const_cast<PIP_Tree_Node*>
+                              (dec->child_node(true)));
+            }
+            if (dec->child_node(false) != nullptr) {
+              nodes.push_back(const_cast<PIP_Tree_Node*>
+                              (dec->child_node(false)));
+            }
+          }
+        }
+      }
+
       // Update tableau and mark constraints as no longer pending.
       x.current_solution->update_tableau(*this,
                                          external_space_dim,
